@@ -63,8 +63,13 @@ impl Ctx {
     }
     fn begin(&mut self, n: u32, new_line: String, scan_every: usize) {
         self.ex.begin_case();
-        self.ex.tt = if n >= 1 && n <= 6 { Some(TT::ident(n)) } else { None };
+        self.ex.tt = None;
         self.ex.scan_every = scan_every;
+        if n >= 1 && n <= 6 {
+            // the oracle's universe travels with the case, so that a replay file is self-contained
+            let vs: Vec<String> = (1..=n).map(|v| v.to_string()).collect();
+            self.op(format!("vmap {}", vs.join(" ")));
+        }
         self.op(new_line);
     }
     fn end(&mut self) {
@@ -939,6 +944,117 @@ pub fn s_huge(cx: &mut Ctx) {
     }
 }
 
+/// many variables and long argument lists (32, 33, 64, 65, 128, 129 … entries): cubes, clauses, n-ary
+/// folds, substitution maps, cofactor cubes, care-set cubes, root lists. The entry points that must
+/// agree are compared as handles (canonicity makes that exact): cube = and_many = iterated and;
+/// substitute_multi = cofactor_cube = iterated substitute = constrain/restrict by the cube
+pub fn s_wide(cx: &mut Ctx) {
+    let cases = if cx.thorough { 60 } else { 5 };
+    for ci in 0..cases {
+        let n = [40usize, 66, 100, 130, 200][ci % 5];
+        cx.ex.begin_case();
+        cx.ex.tt = None;
+        cx.ex.scan_every = 97;
+        cx_op!(cx, format!("new {} {} {}", 15 + ci % 3, 6 + ci % 5, 8 + ci % 4));
+        let mut v = vec![0usize];
+        let mut nv = vec![0usize];
+        for i in 1..=n {
+            v.push(cx_op!(cx, format!("var {}", i)));
+        }
+        for i in 1..=n {
+            nv.push(cx_op!(cx, format!("not {}", v[i])));
+        }
+        let same = |cx: &mut Ctx, a: usize, b: usize, props: &[&'static str], what: &str| {
+            if cx.ex.env[a] != cx.ex.env[b] {
+                let m = format!("{}: h{} = {} but h{} = {}", what, a, crate::exec::show_ref(cx.ex.env[a]), b, crate::exec::show_ref(cx.ex.env[b]));
+                cx.ex.fail(props, m);
+            }
+        };
+        let rounds = if cx.thorough { 12 } else { 6 };
+        for round in 0..rounds {
+            let k = [32usize, 33, 34, 63, 64, 65, 100, 128, 129][(ci + round) % 9].min(n - 2);
+            // k distinct variables with signs
+            let mut pool: Vec<usize> = (1..=n).collect();
+            for i in (1..pool.len()).rev() {
+                let j = cx.rng.below(i as u64 + 1) as usize;
+                pool.swap(i, j);
+            }
+            let mut lits: Vec<i64> = pool[..k].iter().map(|&x| if cx.rng.chance(1, 2) { x as i64 } else { -(x as i64) }).collect();
+            let shuffled: Vec<String> = lits.iter().map(|l| l.to_string()).collect();
+            lits.sort_by_key(|l| l.unsigned_abs());
+            let asc: Vec<String> = lits.iter().map(|l| l.to_string()).collect();
+            let lit_h = |l: i64| -> usize { if l > 0 { v[l as usize] } else { nv[(-l) as usize] } };
+            // cube three ways, clause three ways
+            let c1 = cx_op!(cx, format!("cube {}", shuffled.join(" ")));
+            let hs: Vec<String> = shuffled.iter().map(|s| lit_h(s.parse().unwrap()).to_string()).collect();
+            let c2 = cx_op!(cx, format!("andmany {}", hs.join(" ")));
+            let mut c3 = lit_h(lits[k - 1]);
+            for i in (0..k - 1).rev() {
+                c3 = cx_op!(cx, format!("and {} {}", lit_h(lits[i]), c3));
+            }
+            same(cx, c1, c2, &["C15", "C03"], "cube vs apply_and_many of its literals");
+            same(cx, c1, c3, &["C15", "C03"], "cube vs iterated apply_and");
+            let d1 = cx_op!(cx, format!("clause {}", shuffled.join(" ")));
+            let d2 = cx_op!(cx, format!("ormany {}", hs.join(" ")));
+            same(cx, d1, d2, &["C15", "C03"], "clause vs apply_or_many of its literals");
+            cx_op!(cx, format!("satcount {} {}", c1, n));
+            cx_op!(cx, format!("satcount {} {}", d1, n + 3));
+            cx_op!(cx, format!("onesat {}", c1));
+            cx_op!(cx, format!("paths {}", c1));
+            cx_op!(cx, format!("size {}", c1));
+            cx_op!(cx, format!("size {}", d1));
+            if k <= 66 {
+                cx_op!(cx, format!("paths {}", d1));
+            }
+            // a function with wide support: a few products over random variables, xor-ed / or-ed
+            let mut f = cx.rng.below(2) as usize;
+            for t in 0..4 {
+                let w = 3 + cx.rng.below(30) as usize;
+                let mut term: Vec<String> = vec![];
+                for _ in 0..w {
+                    let x = 1 + cx.rng.below(n as u64) as usize;
+                    term.push(if cx.rng.chance(1, 2) { v[x] } else { nv[x] }.to_string());
+                }
+                let p = cx_op!(cx, format!("andmany {}", term.join(" ")));
+                f = cx_op!(cx, format!("{} {} {}", if t % 2 == 0 { "or" } else { "xor" }, f, p));
+            }
+            // the substitution four ways
+            let r1 = cx_op!(cx, format!("substm {} {}", f, asc.join(" ")));
+            let r2 = cx_op!(cx, format!("cofcube {} {}", f, asc.join(" ")));
+            let mut r3 = f;
+            for &l in &lits {
+                r3 = cx_op!(cx, format!("subst {} {} {}", r3, l.unsigned_abs(), if l > 0 { 1 } else { 0 }));
+            }
+            same(cx, r1, r2, &["C08"], "substitute_multi vs cofactor_cube");
+            same(cx, r1, r3, &["C08"], "substitute_multi vs iterated substitute");
+            let r4 = cx_op!(cx, format!("constrain {} {}", f, c1));
+            same(cx, r1, r4, &["C10", "C08"], "constrain by a cube vs the cofactor");
+            let r5 = cx_op!(cx, format!("restrict {} {}", f, c1));
+            same(cx, r1, r5, &["C11", "C08"], "restrict by a cube vs the cofactor");
+            // composition with a literal is a substitution of a function that is then fixed
+            let x = lits[0].unsigned_abs() as usize;
+            let r6 = cx_op!(cx, format!("compose {} {} {}", f, x, if lits[0] > 0 { 0 } else { 1 }));
+            let r7 = cx_op!(cx, format!("subst {} {} {}", f, x, if lits[0] > 0 { 1 } else { 0 }));
+            same(cx, r6, r7, &["C09", "C08"], "compose with a constant vs substitute");
+            cx_op!(cx, format!("size {}", f));
+            cx_op!(cx, format!("bracket {}", r1));
+            cx_op!(cx, format!("dot {} {} {}", f, c1, d1));
+            cx_op!(cx, format!("desc {} {} {}", f, c1, r1));
+            // a collection with a long root list (every variable, every literal, this round's results)
+            if round % 2 == 1 {
+                let mut roots: Vec<String> = v[1..].iter().chain(nv[1..].iter()).map(|h| h.to_string()).collect();
+                roots.extend([f, c1, d1, r1].iter().map(|h| h.to_string()));
+                cx_op!(cx, format!("gc {}", roots.join(" ")));
+                cx.op("digest".into());
+            }
+        }
+        cx.end();
+        if ci == 0 {
+            cx.notes.push("list lengths 32, 33, 34, 63, 64, 65, 100, 128, 129 over 40–200 variables".into());
+        }
+    }
+}
+
 /// boundary values of the variable type (`u32`; literals are `i32`)
 const VAR_POOL: &[u64] = &[
     1, 2, 3, 7, 1 << 15, 1 << 16, (1 << 16) + 1, (1 << 30) - 1, 1 << 30, (1 << 30) + 1, (1 << 31) - 2, (1 << 31) - 1, 1 << 31, (1 << 31) + 1, (1 << 31) + 5,
@@ -1691,6 +1807,57 @@ pub fn s_cache(cx: &mut Ctx) {
     }
 }
 
+/// C18: one call repeated 2^8, 2^16, 2^32 times (and one more / one less) between clears — counters
+/// of those widths wrap there
+pub fn s_cacherep(cx: &mut Ctx) {
+    let counts: Vec<u64> = if cx.thorough {
+        vec![255, 256, 257, 65535, 65536, 65537, (1 << 32) - 1, 1 << 32, (1 << 32) + 1]
+    } else {
+        vec![256, 65536, 1 << 32]
+    };
+    for &n in &counts {
+        for what in 0..3 {
+            cx.ex.begin_case();
+            cx_op!(cx, format!("c.new {}", 1 + what));
+            cx.op("c.insert 1 2 10".into());
+            cx.op("c.insert 3 4 11".into());
+            cx.op("c.clear".into());
+            match what {
+                0 => {
+                    // n insertions, then a clear must still forget them
+                    cx_op!(cx, format!("c.rep insert 5 6 12 {}", n));
+                    cx.op("c.get 5 6".into());
+                    cx.op("c.clear".into());
+                    cx.op("c.get 5 6".into());
+                    cx.op("c.get 1 2".into());
+                }
+                1 => {
+                    // n clears between an insertion and a lookup
+                    cx.op("c.insert 5 6 12".into());
+                    cx_op!(cx, format!("c.rep clear {}", n));
+                    cx.op("c.get 5 6".into());
+                    cx.op("c.get 1 2".into());
+                    cx.op("c.insert 7 8 13".into());
+                    cx.op("c.get 7 8".into());
+                }
+                _ => {
+                    // n lookups: the statistics and the answer
+                    if n > (1 << 20) && !cx.thorough {
+                        continue;
+                    }
+                    cx.op("c.insert 5 6 12".into());
+                    cx_op!(cx, format!("c.rep get 5 6 {}", n));
+                    cx_op!(cx, format!("c.rep get 9 9 {}", n));
+                    cx.op("c.clear".into());
+                    cx.op("c.get 5 6".into());
+                }
+            }
+            cx.op("c.dump".into());
+        }
+    }
+    cx.notes.push(format!("repetition counts: {:?}", counts));
+}
+
 /// Szudzik unpairing on [0, 2^64): the (a, b) with pairing(a, b) = z, both below 2^32
 fn unpair(z: u64) -> (u64, u64) {
     let mut s = (z as f64).sqrt() as u64;
@@ -2325,10 +2492,12 @@ pub fn run_suite(name: &str, cx: &mut Ctx) -> bool {
         "export" => s_export(cx),
         "table" => s_table(cx),
         "hugevar" => s_hugevar(cx),
+        "wide" => s_wide(cx),
         "huge" => s_huge(cx),
         "tnode" => s_tnode(cx),
         "gcwrap" => s_gcwrap(cx),
         "cache" => s_cache(cx),
+        "cacherep" => s_cacherep(cx),
         "kcache" => s_kcache(cx),
         "raw" => s_raw(cx, cfg!(debug_assertions)),
         "eda" => s_eda(cx),
@@ -2338,5 +2507,5 @@ pub fn run_suite(name: &str, cx: &mut Ctx) -> bool {
 }
 
 pub const ALL_SUITES: &[&str] = &[
-    "mk", "ite3", "conn", "hist", "gc_chain", "gc_reuse", "big", "soak", "memo", "subst", "compose", "constrain", "restrict", "itec", "count", "export", "table", "cache", "kcache", "raw", "eda", "hugevar", "gcwrap", "tnode", "huge",
+    "mk", "ite3", "conn", "hist", "gc_chain", "gc_reuse", "big", "soak", "memo", "subst", "compose", "constrain", "restrict", "itec", "count", "export", "table", "cache", "cacherep", "kcache", "raw", "eda", "hugevar", "gcwrap", "tnode", "huge", "wide",
 ];
